@@ -13,8 +13,8 @@ VERIFY_MODES = ["exit1", "exit2-quiet", "signal9", "signal11", "empty", "stderr-
                 "ok-embedded", "ok-stdout", "undecodable", "communicate-raise",
                 "spawn:enoent", "spawn:eperm", "spawn:eagain", "spawn:enomem"]
 PRODUCE_MODES = ["exit1", "signal9", "empty", "out-missing", "out-empty", "communicate-raise",
-                 "spawn:enoent", "spawn:eperm", "spawn:eagain", "spawn:enomem"]
-DECRYPT_MODES = PRODUCE_MODES + ["out-trunc", "out-garble"]
+                 "spawn:enoent", "spawn:eperm", "spawn:eagain", "spawn:enomem", "signal-out-trunc"]
+DECRYPT_MODES = PRODUCE_MODES + ["out-trunc", "out-garble", "signal-out-garble"]
 
 OK_LOOKALIKES = [b"NOT OK\n", b"OK?\n", b"xOKx\n", b" OK\n", b"OK \n", b"ok\n", b"OKAY\n", b"O K\n",
                  b"OK\x00\n", b"\tOK\n", b"FAIL OK\n", b"OK: no\n", b"Signature is OK\n", b"KO\n"]
@@ -67,6 +67,18 @@ def apply_fault(f, healthy, inv):
         return Result(0, b"", b"", "__unlink__")
     if mode == "out-empty":
         return Result(0, b"", b"", b"")
+    if mode == "signal-out-trunc":
+        # killed while it was writing its result: the output file holds the first part only
+        out = healthy.output if isinstance(healthy.output, bytes) else b""
+        cut = r.randrange(1, max(2, len(out))) if out else 0
+        return Result(-r.choice([9, 11, 6, 15]), b"", b"", out[:cut])
+    if mode == "signal-out-garble":
+        # crashed (SIGSEGV / SIGABRT) after scribbling over its own output buffer
+        out = bytearray(healthy.output if isinstance(healthy.output, bytes) else b"")
+        for _ in range(1 + len(out) // 40):
+            if out:
+                out[r.randrange(len(out))] = r.randrange(256)
+        return Result(-r.choice([11, 6]), b"", b"", bytes(out))
     if mode == "out-trunc":
         out = healthy.output if isinstance(healthy.output, bytes) else b""
         cut = r.randrange(1, max(2, len(out))) if out else 0
